@@ -156,6 +156,16 @@ func Sleep(d Duration) {
 	vrt.SleepPoint()
 	if d > 0 {
 		elapsed += d
+		// a goroutine that sleeps again and again while nothing else can run oversleeps more and more (any
+		// oversleeping is legal): a loop that waits for a deadline by sleeping reaches it within the
+		// rounds such a goroutine is given
+		extra := d
+		for k := vrt.IdleWakes(); k > 0 && extra < 1000*time.Hour; k-- {
+			extra *= 2
+		}
+		if extra > d {
+			elapsed += extra
+		}
 	}
 }
 
